@@ -26,6 +26,7 @@ type vfTapeT struct {
 	Values  map[string]interface{} `json:"tape"`
 	Label   string                 `json:"label"`
 	Kind    string                 `json:"kind"`
+	Params  map[string]int         `json:"params"`
 }
 
 var (
